@@ -618,3 +618,85 @@ func (t *Tables) KeywordSet() (words map[string]string) {
 func itoa(i int64) string { return strconv.FormatInt(i, 10) }
 
 var _ = strings.TrimSpace
+
+// ruleAccessorFaithful: the rules that speak about "what may stand where" read the relation from the literal of the
+// context table. The code asks the accessor. Fold the accessor (E8, on the evaluated package initialiser) for every
+// pair of directive kinds and compare: a shortcut, an extra test or a swapped argument in the accessor changes the
+// relation that is enforced without changing the table.
+func (c *Ctx) ruleAccessorFaithful(rule string) {
+	r := c.R
+	r.Rule(rule, "for every pair (context kind, directive kind) of the enumeration, Enumeration.IsAllowedForDirectiveContext folds (abstract evaluation of the function on constants, package initialiser evaluated) to exactly the membership in the context table literal, and IsAllowedForRootContext to the root set: the accessors add nothing to and take nothing from the tables", 2)
+	t := c.Tables()
+	if len(t.Problems) > 0 {
+		r.Undecided(rule, "tables", "directive tables not readable", "")
+		return
+	}
+	f := c.P.LookupFunc("directive", "Enumeration.IsAllowedForDirectiveContext")
+	if f == nil {
+		r.Undecided(rule, "anchor", "Enumeration.IsAllowedForDirectiveContext not found", "")
+		return
+	}
+	sf := c.P.SSAFunc(f)
+	if sf == nil || len(sf.Params) != 2 {
+		r.Undecided(rule, "anchor", "no SSA form of the accessor", "")
+		return
+	}
+	ev := c.directiveEval(400)
+	var names []string
+	for n := range t.Consts {
+		names = append(names, n)
+	}
+	sort.Strings(names)
+	var diffs []string
+	undecided := ""
+	for _, p := range names {
+		for _, ch := range names {
+			outs := ev.Run(sf, []ssaeval.Value{ssaeval.Int(t.Consts[p]), ssaeval.Int(t.Consts[ch])})
+			want := t.Children[p][ch]
+			for _, o := range outs {
+				if o.Incomplete != "" || o.Panics || len(o.Rets) != 1 || o.Rets[0].K != ssaeval.Const {
+					undecided = fmt.Sprintf("(%s, %s): %s", p, ch, o.Incomplete)
+					continue
+				}
+				if got := constant.BoolVal(o.Rets[0].C); got != want {
+					diffs = append(diffs, fmt.Sprintf("%s in %s: table %v, accessor %v", ch, p, want, got))
+				}
+			}
+			if len(outs) == 0 {
+				undecided = fmt.Sprintf("(%s, %s): no outcome", p, ch)
+			}
+		}
+	}
+	pos := c.pos(c.P.Decl(f).Pos())
+	switch {
+	case len(diffs) > 0:
+		if len(diffs) > 6 {
+			diffs = append(diffs[:6], fmt.Sprintf("... %d more", len(diffs)-6))
+		}
+		r.Bad(rule, "IsAllowedForDirectiveContext", "the accessor does not answer what the context table says: "+strings.Join(diffs, "; "), pos)
+	case undecided != "":
+		r.Undecided(rule, "IsAllowedForDirectiveContext", "the accessor could not be folded for "+undecided, pos)
+	default:
+		r.Ok(rule, "IsAllowedForDirectiveContext", fmt.Sprintf("folded for %d pairs: equal to the table literal", len(names)*len(names)), pos)
+	}
+	// the root predicate
+	if g := c.P.LookupFunc("directive", "Enumeration.IsAllowedForRootContext"); g != nil {
+		if sg := c.P.SSAFunc(g); sg != nil && len(sg.Params) == 1 {
+			var rd []string
+			for _, n := range names {
+				for _, o := range ev.Run(sg, []ssaeval.Value{ssaeval.Int(t.Consts[n])}) {
+					if o.Incomplete != "" || len(o.Rets) != 1 || o.Rets[0].K != ssaeval.Const {
+						rd = append(rd, n+": not folded")
+					} else if constant.BoolVal(o.Rets[0].C) != t.Root[n] {
+						rd = append(rd, n)
+					}
+				}
+			}
+			if len(rd) == 0 {
+				r.Ok(rule, "IsAllowedForRootContext", "folds to the root set read from the source", c.pos(c.P.Decl(g).Pos()))
+			} else {
+				r.Bad(rule, "IsAllowedForRootContext", "differs from the root set for "+strings.Join(rd, ", "), c.pos(c.P.Decl(g).Pos()))
+			}
+		}
+	}
+}
